@@ -186,3 +186,23 @@ func (c *Chain) Block(signed []bool, msgs []*Msg) (f *Failure) {
 	c.LastHash = c.App.Commit().Data
 	return nil
 }
+
+// ProtoMsg is what the generated request / response types implement.
+type ProtoMsg interface {
+	Marshal() ([]byte, error)
+	Unmarshal([]byte) error
+}
+
+// Query asks the application's gRPC query router (state of the last committed block), e.g.
+// "/mhub2.v1.Query/LatestSignerSetTx".
+func (c *Chain) Query(path string, req, resp ProtoMsg) error {
+	bz, err := req.Marshal()
+	if err != nil {
+		return err
+	}
+	r := c.App.Query(abci.RequestQuery{Path: path, Data: bz})
+	if r.Code != 0 {
+		return fmt.Errorf("query %s: code %d: %s", path, r.Code, r.Log)
+	}
+	return resp.Unmarshal(r.Value)
+}
